@@ -45,22 +45,6 @@ def _walk(case):
         yield st, dict(table)
 
 
-def stale_self_reference(kind, detail, case):
-  """F21 (C19): a statement `X.meth.p = @X` (X possibly spelled two ways) — the reference to class X is
-  created while the very statement that configures X's method re-registers X, so it is not yet in the
-  store when existing references are re-pointed and keeps denoting the old registration."""
-  try:
-    for st, table in _walk(case):
-      if st[0] == 'bind' and not isinstance(st[4], int):
-        target = _resolve(table, st[4][1])
-        own = _resolve(table, st[2])
-        if target and own and own[0].startswith(target[0] + '.') and own[0].count('.') == target[0].count('.') + 1:
-          return True
-  except Exception:  # pylint: disable=broad-except
-    return False
-  return False
-
-
 def class_respelled_via_method(kind, detail, case):
   """F22 (C19): a class already registered through one import spelling has a method configured through a
   spelling with a different registration prefix (e.g. 'from pkgb import util' then 'import pkgb.util as u'):
